@@ -79,7 +79,7 @@ def merge( ranges, reach=1, limit=None ):
     base, length	= next( input )
     for address, count in input:
         if length:
-            if ( address // 10000 == base // 10000
+            if ( address // 10000 <= ( base + length - 1 ) // 10000
                  and address < base + length + ( reach or 1 )):
                 log.debug( "Merging:  %10r + %10r == %r" % (
                         (base,length), (address,count), (base,address+count-base)))
